@@ -77,8 +77,22 @@ func H_C13_try() {
 	vars.Set("p", p)
 	vars.Set("r", []string{"e1"})
 	vars.SetFunc("fail", hxFail)
+	// the failure is an error value, or a Go runtime error raised inside the called function
+	// (integer division by zero, nil map write): try catches both
+	failKind := 0
+	if fails && b <= 1 {
+		failKind = ndChoice("failKind", 3)
+	}
 	vars.SetFunc("mayFail", func(a Arguments) reflect.Value {
 		if fails {
+			switch failKind {
+			case 1:
+				zero := len(a.Get(5).String()) * 0
+				return reflect.ValueOf(1 / zero)
+			case 2:
+				var m map[string]int
+				m["k"] = 1
+			}
 			panic(errors.New("mayFail"))
 		}
 		return reflect.ValueOf("")
